@@ -332,6 +332,28 @@ func lastRound(st chain.Store) uint64 {
 	return l.Round
 }
 
+// storeSummary describes a raw store for a failing input: every round with its state
+func storeSummary(w *world, bs []*common.Beacon) string {
+	have := map[uint64]*common.Beacon{}
+	var max uint64
+	for _, b := range bs {
+		have[b.Round] = b
+		if b.Round > max {
+			max = b.Round
+		}
+	}
+	var parts []string
+	for rd := uint64(1); rd <= max; rd++ {
+		switch b := have[rd]; {
+		case b == nil:
+			parts = append(parts, fmt.Sprintf("%d:missing", rd))
+		case !w.valid(b):
+			parts = append(parts, fmt.Sprintf("%d:INVALID", rd))
+		}
+	}
+	return fmt.Sprintf("rounds 0..%d stored, faulty: %v", max, parts)
+}
+
 // ---- executing the SyncManager-level cases ----
 
 func runCase(c *scase) (out outcome) {
@@ -405,6 +427,48 @@ func runCase(c *scase) (out outcome) {
 		out.line = fmt.Sprintf("CResync %s %s %s %s %s %d %d %s %s %s", coqBool(w.chained), coqBackend(c.bk), c.sk,
 			r.validTerm(), r.baseTerm(), c.from, c.to, r.cl.attemptTerm(0), a2, obs)
 		m.checkPuts(r, false)
+		// M: ReSync(from, to) with an honest peer reachable in the first attempt, or in the retry after
+		// a first attempt in which every peer failed: no error, rounds from..to verify on read-back
+		// (single rounds, as CorrectPastBeacons asks for them: over a range, a peer that delivers the
+		// genuine round `to` at once ends the call before the rounds below it were replaced)
+		if c.from >= 1 && c.from == c.to && c.to <= chainLen {
+			pa := r.cl.attempts
+			reach := func(a []*peerSpec) (found, clean bool) {
+				for _, s := range a {
+					if s.self {
+						continue
+					}
+					if s.honest {
+						return true, true
+					}
+					if s.mayStall {
+						return false, false
+					}
+				}
+				return false, true
+			}
+			f0, clean0 := reach(pa[0])
+			f1 := false
+			if len(pa) > 1 {
+				f1, _ = reach(pa[1])
+			}
+			if f0 || (clean0 && f1) {
+				out.buckets = append(out.buckets, "resync/honest-reachable")
+				var still []uint64
+				for rd := c.from; rd <= c.to; rd++ {
+					if b, gerr := r.raw.Get(r.ctx, rd); gerr != nil || !w.valid(b) {
+						still = append(still, rd)
+					}
+				}
+				if err != nil || len(still) > 0 {
+					cls := "repair-incomplete"
+					if !f0 {
+						cls = "C10-repair-incomplete-after-retry"
+					}
+					m.fail(cls, fmt.Sprintf("ReSync(%d,%d) with an honest peer reachable (retry needed: %v) returned %q (%s), rounds %v still do not verify on read-back; store before: %s", c.from, c.to, !f0, fmt.Sprint(err), res, still, storeSummary(w, r.before)))
+				}
+			}
+		}
 		out.buckets = append(out.buckets, "resync/"+res)
 		out.nontriv = len(r.rec.okPuts()) > 0
 	case "check":
@@ -513,33 +577,75 @@ func runCase(c *scase) (out outcome) {
 				m.fail("repair-damaged-valid-round", fmt.Sprintf("round %d verified before the repair and was changed by it", rd))
 			}
 		}
-		// M: with an honest peer reachable (no staller before it) in the first attempt of every job,
-		// every listed round verifies afterwards
-		allHonest := len(c.jobs) > 0
-		for i := range c.jobs {
-			var calls []*call
-			if 2*i < len(r.cl.calls) {
-				calls = r.cl.calls[2*i]
+		// M: the property's own predicate on the real store after the repair. Premise, from the
+		// scripted inputs only: for every listed round an honest peer is reached through peers that
+		// never fall silent, either in the first attempt, or - when every peer of the first attempt
+		// fails - in the one retry ReSync makes. Then the repair reports no error and every listed
+		// round verifies on read-back.
+		reach := func(a []*peerSpec) (found, clean bool) { // honest peer present; nobody before it may stall
+			for _, s := range a {
+				if s.self {
+					continue
+				}
+				if s.honest {
+					return true, true
+				}
+				if s.mayStall {
+					return false, false
+				}
 			}
-			hi, stallB, _ := tolerable(c, atts[2*i], calls)
-			if hi < 0 || stallB || c.jobs[i].round == 0 || c.jobs[i].round > chainLen {
+			return false, true
+		}
+		allHonest, viaRetry := len(c.jobs) > 0, false
+		for i := range c.jobs {
+			f0, clean0 := reach(atts[2*i])
+			f1, _ := reach(atts[2*i+1])
+			switch {
+			case c.jobs[i].round == 0 || c.jobs[i].round > chainLen:
+				allHonest = false
+			case f0:
+			case clean0 && f1:
+				viaRetry = true
+			default:
 				allHonest = false
 			}
 		}
 		if allHonest {
-			out.buckets = append(out.buckets, "correct/honest-reachable")
+			bucket := "correct/honest-reachable"
+			if viaRetry {
+				bucket = "correct/honest-reachable-at-retry"
+			}
+			out.buckets = append(out.buckets, bucket)
+			var still []uint64
+			memdbKept := false
 			for _, j := range c.jobs {
 				b, gerr := r.raw.Get(r.ctx, j.round)
-				if err != nil || gerr != nil || !w.valid(b) {
-					cls := "repair-incomplete"
-					for _, old := range r.before {
-						// memdb keeps what it has: only a round that was present (and invalid) before
-						if c.bk == bkMem && old.Round == j.round && gerr == nil && string(old.Signature) == string(b.Signature) {
-							cls = "repair-noop-on-memdb-existing-round"
+				if gerr != nil || !w.valid(b) {
+					still = append(still, j.round)
+					// memdb keeps what it has: a verified beacon of that round WAS handed to the raw
+					// store, and the round that was present (and invalid) before is still the same
+					wrote := false
+					for _, p := range r.rec.okPuts() {
+						if p.b.Round == j.round && w.valid(p.b) {
+							wrote = true
 						}
 					}
-					m.fail(cls, fmt.Sprintf("CorrectPastBeacons returned %v but round %d still does not verify on read-back", err, j.round))
+					for _, old := range r.before {
+						if wrote && c.bk == bkMem && old.Round == j.round && gerr == nil && string(old.Signature) == string(b.Signature) {
+							memdbKept = true
+						}
+					}
 				}
+			}
+			if err != nil || len(still) > 0 {
+				cls := "repair-incomplete"
+				switch {
+				case memdbKept:
+					cls = "repair-noop-on-memdb-existing-round"
+				case viaRetry:
+					cls = "C10-repair-incomplete-after-retry"
+				}
+				m.fail(cls, fmt.Sprintf("honest peer reachable for every listed round (retry needed: %v): CorrectPastBeacons returned %q (%s), rounds %v still do not verify on read-back; store before: %s", viaRetry, fmt.Sprint(err), res, still, storeSummary(w, r.before)))
 			}
 		}
 		out.buckets = append(out.buckets, "correct/"+res)
